@@ -1,28 +1,91 @@
 """Shared RK3 driver: compare the reachable panic-site inventory with the audit table."""
+import re
+
 from . import panics as P
 
 T = "trustfall_core::"
+
+
+_LT = re.compile(r"(?<=[<&( ,])'[a-z_][a-z0-9_]*(?=[>, ])")
+
+
+def norm_lt(s):
+    """Lifetime parameter names are not identity: `OutputHandler::<'query>::finish` and `OutputHandler::<'q>::finish` are one key."""
+    return _LT.sub("'_", s)
+
+
+def short_name(fn):
+    short = fn[len(T):] if fn.startswith(T) else fn.replace("<" + T, "<").replace(" " + T, " ")
+    return norm_lt(short.replace(T, ""))
 
 
 def run_inventory(C, R, entries, audit, rule="r1", stop=(), label="", ignore_fns=()):
     missing = [e for e in entries if C.fn(e) is None]
     for e in missing:
         R.fail(rule, "anchor:%s" % e.split("::")[-1], "-", "entry point %s not found" % e)
-    inv, seen, parent, g = P.inventory(C, [e for e in entries if e not in missing], stop)
+    inv0, seen, parent, g = P.inventory(C, [e for e in entries if e not in missing], stop)
+    inv = {}
+    for (fn, key), nodes in inv0.items():
+        inv.setdefault((fn, norm_lt(key)), []).extend(nodes)
+    audit = {(norm_lt(fn), norm_lt(key)): v for (fn, key), v in audit.items()}
     R.units["%sreachable_functions" % label] = len(seen)
     R.units["%sinventory_keys" % label] = len(inv)
     R.units["%sinventory_sites" % label] = sum(len(v) for v in inv.values())
     classes = {}
     used = set()
+    # -- sites that moved with a refactoring keep their audit entry (the argument why they cannot fire is about the construct and
+    #    the guards around the call path, not about the name of the function that holds it):
+    #    (a) extraction: F's audited construct now sits in a new function G that only F calls, and F lost as many sites as G has;
+    #    (b) inlining / rename: the audited function no longer exists and the construct sits, same key and within the audited
+    #        count, in a function that has no audit entries of its own.
+    full = {short_name(f["path"]): f["path"] for f in C.fns}
+    audited_fns = {fn for fn, _ in audit}
+    callers = {}
+    for src, dsts in g.edges.items():
+        if src in seen:
+            for d in dsts:
+                callers.setdefault(d, set()).add(src)
+    present = {}
+    for (fn, key), nodes in inv.items():
+        present[(short_name(fn), key)] = len(nodes)
+
+    def relocated(fn, short, key, n):
+        """Audit entry (F, key) that the n sites of `key` in fn can be charged to, or None."""
+        for (f_short, k), (cnt, cls, reason) in audit.items():
+            if k != key or f_short == short:
+                continue
+            f_full = full.get(f_short)
+            if f_full is None:
+                # (b) the audited function is gone; fn must be a function without audit entries of its own, or the caller it was inlined into
+                budget = cnt - charged.get((f_short, k), 0)
+                if n <= budget:
+                    return (f_short, k), "the audited function %s no longer exists (renamed or inlined)" % f_short
+                continue
+            # (a) extraction out of F: only F calls fn, and F lost the sites
+            if short in audited_fns:
+                continue
+            cs = {c for c in callers.get(fn, ()) if c != fn}
+            if cs and cs <= {f_full} and present.get((f_short, k), 0) + charged.get((f_short, k), 0) + n <= cnt:
+                return (f_short, k), "extracted from %s, its only caller" % f_short
+        return None
+    charged = {}
     for (fn, key), nodes in sorted(inv.items()):
-        short = fn[len(T):] if fn.startswith(T) else fn.replace("<" + T, "<").replace(" " + T, " ")
-        short = short.replace(T, "")
+        short = short_name(fn)
         if any(short.startswith(i) for i in ignore_fns):
             continue
         ent = audit.get((short, key))
         where = C.loc(nodes[0].get("sp")) if isinstance(nodes[0], dict) else "-"
         ikey = "%s | %s" % (short, key)
         if ent is None:
+            rel = relocated(fn, short, key, len(nodes))
+            if rel is not None:
+                (f_short, k), why = rel
+                charged[(f_short, k)] = charged.get((f_short, k), 0) + len(nodes)
+                used.add((f_short, k))
+                cls = audit[(f_short, k)][1]
+                classes[cls.split(":")[0]] = classes.get(cls.split(":")[0], 0) + len(nodes)
+                R.ok(rule, "%s | %s" % (f_short, key), {"class": cls, "relocated_to": short, "why": why, "sites": len(nodes)})
+                continue
             path = g.path_to(parent, fn)
             R.fail(rule, "unaudited %s x%d" % (ikey, len(nodes)), where,
                    "panic-capable construct `%s` (x%d) in %s is reachable from %s and has no audit entry: either it can fire on "
@@ -33,12 +96,18 @@ def run_inventory(C, R, entries, audit, rule="r1", stop=(), label="", ignore_fns
         used.add((short, key))
         cnt, cls, reason = ent
         if len(nodes) > cnt:
-            R.fail(rule, "count %s" % ikey, where,
-                   "%d sites of `%s` in %s but only %d are audited (%s): a new panic-capable construct appeared on an audited path"
-                   % (len(nodes), key, fn, cnt, cls))
-            continue
+            rel = relocated(fn, short, key, len(nodes) - cnt)
+            if rel is not None and full.get(rel[0][0]) is None:
+                charged[rel[0]] = charged.get(rel[0], 0) + len(nodes) - cnt
+                used.add(rel[0])
+            else:
+                R.fail(rule, "count %s" % ikey, where,
+                       "%d sites of `%s` in %s but only %d are audited (%s): a new panic-capable construct appeared on an audited path"
+                       % (len(nodes), key, fn, cnt, cls))
+                continue
         classes[cls.split(":")[0]] = classes.get(cls.split(":")[0], 0) + len(nodes)
         R.ok(rule, ikey, {"class": cls, "reason": reason, "sites": len(nodes)} if len(R.samples) < 25 else None)
     R.units["%ssites_by_class" % label] = classes
     R.units["%saudit_entries_unused" % label] = len([k for k in audit if k not in used])
+    R.units["%srelocated_sites" % label] = sum(charged.values())
     return inv, seen, parent, g
